@@ -74,10 +74,11 @@ def Env (V : Type) := Name → Option V
 
 def Env.set {V} (ρ : Env V) (x : Name) (v : V) : Env V := fun y => if y = x then some v else ρ y
 
+/-- Bind a node's declared outputs; trailing optional outputs the node does not declare are dropped. -/
 def bindOuts {V} (ρ : Env V) : List Name → List V → Option (Env V)
-  | [], [] => some ρ
+  | [], _ => some ρ
   | x :: xs, v :: vs => bindOuts (ρ.set x v) xs vs
-  | _, _ => none
+  | _ :: _, [] => none
 
 def lookupIn {V} (ρ : Env V) : Option Name → Option (Option V)
   | none => some none
